@@ -157,6 +157,19 @@ def faults(wb):
                             for r in rs:
                                 w[title].cell(row=r, column=c).value = pref
                         out.append((f'pump tab {pref!r} used {k} more time(s) (rows {interior[:k]})', reuse, 'load'))
+    # well-formed variants: pump rows spelled in another letter case than the tab ("names are not case sensitive")
+    for ws in wb.worksheets:
+        if 'pipeline' in ws.title.lower() and 'pipe_table' in ws.defined_names:
+            addr = ws.defined_names['pipe_table'].attr_text.split('!')[1].replace('$', '')
+            c0, r0, c1, r1 = range_boundaries(addr)
+            prow = [(r, ws.cell(row=r, column=c0).value) for r in range(r0 + 1, r1 + 1)]
+            prow = [(r, v) for r, v in prow if isinstance(v, str) and 'pump' in v.lower()]
+            for label, fn in (('upper', str.upper), ('lower', str.lower), ('swapcase', str.swapcase)):
+                if prow:
+                    def recase(w, title=ws.title, rows=tuple(prow), c=c0, fn=fn):
+                        for r, v in rows:
+                            w[title].cell(row=r, column=c).value = fn(v)
+                    out.append((f'pump rows in {label} case', recase, 'load'))
     # dangling pump references
     for ws in wb.worksheets:
         if 'pipeline' in ws.title.lower() and 'pipe_table' in ws.defined_names:
@@ -241,3 +254,18 @@ def stored_workbook(rng, tmpdir):
         path = S.store_to_excel(pl, fname=f'wb{rng.randrange(10**6)}', path=tmpdir)
         wb = openpyxl.load_workbook(filename=path, data_only=True)
     return pl, path, wb
+
+
+def upper_titles(wb):
+    """a well-formed variant: every pump and driver tab title in upper case (MAINPUMP / MAINDRIVER), pipe table rows unchanged"""
+    w = clone_wb(wb)
+    done = False
+    for ws in w.worksheets:
+        if sheet_type(ws.title) in ('pump', 'driver') and ws.title != ws.title.upper():
+            new = ws.title.upper()
+            ws.title = f'tmp{id(ws)}'      # openpyxl compares titles case-insensitively when it avoids duplicates: step aside first
+            ws.title = new
+            for nm, dn in list(ws.defined_names.items()):
+                dn.attr_text = "'" + new + "'!" + dn.attr_text.split('!')[1]
+            done = True
+    return clone_wb(w) if done else None
